@@ -97,3 +97,17 @@ func vpH_C13_T_leader_tampered() {
 	vpAssert("C13.tamper-demotes", tc >= 0 && s.cb.demotes >= 1 && !s.e.IsLeader())
 	vpAssert("C13.tamper-demotes:bound", vpImplies(s.cb.demotes >= 1, s.cb.demoteAt <= tc+int64(tm.H+2*s.to)))
 }
+
+// vpH_C13_T_validate: a leader's record is overwritten with arbitrary bytes and the token is validated (API call
+// and, through it, the demotion handler, which formats and classifies an error built from the record's
+// contents): no panic, whatever the record holds.
+func vpH_C13_T_validate() {
+	s := vpLeadingInstance(vpTimings[0], 0, nil)
+	s.st.ttl = 0
+	s.st.write("env:outsider", "update", vpRec("r"), false, s.st.lastSeq)
+	ok := s.e.ValidateTokenOrDemote(vpRootCtx())
+	vpCover("C13.validate")
+	if !ok {
+		vpAssert("C13.tamper-demotes", !s.e.IsLeader())
+	}
+}
